@@ -12,6 +12,7 @@ import (
 	"bytes"
 	"encoding/json"
 	"math/rand"
+	"os"
 	"regexp"
 	"strconv"
 	"strings"
@@ -300,6 +301,17 @@ func c14rec(lhs, rhs []int, n int, unify bool, palIdx int, hdr int) Ev {
 		d.Format(&nb, mdiff.Normal, fi)
 		d.Format(&cb, mdiff.Context, fi)
 
+		if os.Getenv("MDSVERIF_RAW") == "1" { // bin/crosscheck: the texts themselves, for /usr/bin/patch
+			bl := func(ss []string) [][]int {
+				out := make([][]int, len(ss))
+				for i, s := range ss {
+					out[i] = bytesJ(s)
+				}
+				return out
+			}
+			ev["raw"] = map[string]any{"l": bl(x.strs(lhs)), "r": bl(x.strs(rhs)), "unified": bytesJ(ub.String()),
+				"normal": bytesJ(nb.String()), "context": bytesJ(cb.String())}
+		}
 		uni := cp()
 		uni["hunks"], uni["lexerr"] = x.lexUnified(ub.String(), fi != nil && len(d.Chunks) > 0)
 		if len(d.Chunks) > 0 {
